@@ -170,6 +170,34 @@ func genOptionListShape(g *gen, repo string) {
 	}
 	fmt.Fprintf(&b, "/-- message/options.go: ResetOptionsTo: the size check (`return options, used, ErrTooSmall`) is a top-level statement that precedes `opts := options[:0]` (read from the AST) -/\ndef resetChecksSizeBeforeOverwrite : Bool := %s\n",
 		boolLean(checkIdx >= 0 && checkIdx < optsIdx))
+	// glue: how the library's own users of the option list copy / reset it
+	_, fo := parseFile(repo, "net/observation/handler.go")
+	no := funcDecl(fo, "Handler", "NewObservation")
+	clones, found := false, false
+	for _, st := range no.Body.List {
+		as, ok := st.(*ast.AssignStmt)
+		if !ok || len(as.Lhs) < 1 || identName(as.Lhs[0]) != "options" {
+			continue
+		}
+		found = true
+		clones = containsCall(as, "Clone")
+	}
+	if !found {
+		fail("NewObservation: no top-level assignment to `options`")
+	}
+	fmt.Fprintf(&b, "/-- net/observation/handler.go: NewObservation: the request's options kept by the observation come from a `.Clone()` call (read from the AST) -/\ndef observationClonesOptions : Bool := %s\n", boolLean(clones))
+	_, fr := parseFile(repo, "net/responsewriter/responseWriter.go")
+	sr := funcDecl(fr, "ResponseWriter", "SetResponse")
+	top, any := false, containsCall(sr.Body, "ResetOptionsTo")
+	for _, st := range sr.Body.List {
+		if es, ok := st.(*ast.ExprStmt); ok && containsCall(es, "ResetOptionsTo") {
+			top = true
+		}
+	}
+	if !any {
+		fail("SetResponse: no call of ResetOptionsTo")
+	}
+	fmt.Fprintf(&b, "/-- net/responsewriter/responseWriter.go: SetResponse: `ResetOptionsTo(opts)` is an unconditional top-level statement (read from the AST) -/\ndef setResponseAlwaysResets : Bool := %s\n", boolLean(top))
 	b.WriteString("\nend CoapVerif.Generated.OptionListShape\n")
 	g.write("OptionListShape.lean", b.String())
 }
